@@ -454,8 +454,15 @@ impl Gen<'_> {
                 _ => e(".x", P_TERM, Ty::Any),
             },
             6 | 7 => {
-                let a = self.path(d - 1, it);
-                let b = self.path(d - 1, a.t);
+                // (a leading `. |` makes succinctly resolve the path to the root: recorded C24 finding)
+                let mut a = self.path(d - 1, it);
+                if a.s == "." {
+                    a = e(".x", P_TERM, Ty::Any);
+                }
+                let mut b = self.path(d - 1, a.t);
+                if b.s == "." {
+                    b = e(".x", P_TERM, Ty::Any);
+                }
                 e(format!("{} | {}", wrap(&a, P_COMMA), wrap(&b, P_PIPE)), P_PIPE, b.t)
             }
             8 => {
@@ -501,7 +508,10 @@ impl Gen<'_> {
                 e(format!(". {op} {rhs}"), P_CMP, Ty::Bool)
             }
             1 => e(format!("type == \"{}\"", self.r.pick(&["number", "string", "array", "object", "null", "boolean"])), P_CMP, Ty::Bool),
-            2 => e(*self.r.pick(&["true", "false", "null", ".", "not", "length > 1"]), if self.r.chance(1, 2) { P_TERM } else { P_CMP }, Ty::Bool),
+            2 => {
+                let c = *self.r.pick(&["true", "false", "null", ".", "not", "length > 1"]);
+                e(c, guess_prec(c), Ty::Bool)
+            }
             3 => match it {
                 Ty::Root => e(format!("has(\"{}\")", self.r.pick(&["a", "q", "n"])), P_TERM, Ty::Bool),
                 Ty::Str => e(format!("{}({})", self.r.pick(&["startswith", "endswith", "contains"]), self.str_lit()), P_TERM, Ty::Bool),
@@ -654,8 +664,8 @@ impl Gen<'_> {
                     31 => (format!("first(.[] | select({}))", self.cond(dd, et).s), et),
                     32 => (format!("[.[] | {}]", self.expr(dd, et).s), Ty::Arr),
                     33 => (format!("[limit({}; .[])]", self.small_int()), it),
-                    34 => (format!("reduce .[] as $x ({}; {})", self.r.pick(&["0", "null", "[]", "\"\""]), self.r.pick(&[". + $x", ". + 1", "[$x] + .", "$x", ". + ($x | tostring)"])), Ty::Any),
-                    35 => (format!("[foreach .[] as $x ({}; {}; {})]", self.r.pick(&["0", "[]"]), self.r.pick(&[". + 1", ". + $x", ". + [$x]"]), self.r.pick(&[".", "[$x, .]", "$x"])), Ty::Arr),
+                    34 => (format!("reduce .[] as $e ({}; {})", self.r.pick(&["0", "null", "[]", "\"\""]), self.r.pick(&[". + $e", ". + 1", "[$e] + .", "$e", ". + ($e | tostring)"])), Ty::Any),
+                    35 => (format!("[foreach .[] as $e ({}; {}; {})]", self.r.pick(&["0", "[]"]), self.r.pick(&[". + 1", ". + $e", ". + [$e]"]), self.r.pick(&[".", "[$e, .]", "$e"])), Ty::Arr),
                     36 => (". - [1, 2]".into(), it),
                     37 => (". + [null]".into(), Ty::Arr),
                     38 => ("transpose?".into(), Ty::Arr),
@@ -738,6 +748,16 @@ impl Gen<'_> {
                 let a = self.expr(dd, it);
                 let b = self.expr(dd, it);
                 let (op, lp, rp, rl) = *self.r.pick(&[("+", P_ADD, P_MUL, P_ADD), ("-", P_ADD, P_MUL, P_ADD), ("*", P_MUL, P_TERM, P_MUL), ("/", P_MUL, P_TERM, P_MUL), ("%", P_MUL, P_TERM, P_MUL)]);
+                if op == "*" {
+                    // `string * huge number` aborts the process on allocation (outside this property):
+                    // one operand of `*` is always a small literal
+                    let k = (*self.r.pick(&["0", "1", "2", "3", "1.5", "-1", "{\"z\": 1}", "null"])).to_string();
+                    return if self.r.chance(1, 2) {
+                        e(format!("{} * {k}", wrap(&a, lp)), rl, Ty::Any)
+                    } else {
+                        e(format!("{k} * {}", wrap(&b, rp)), rl, Ty::Any)
+                    };
+                }
                 e(format!("{} {op} {}", wrap(&a, lp), wrap(&b, rp)), rl, Ty::Any)
             }
             15 => self.cond(d, it),
@@ -880,7 +900,13 @@ impl Gen<'_> {
                 // assignment family
                 let lhs = self.path(dd.min(2), it);
                 let op = *self.r.pick(&["=", "|=", "+=", "-=", "*=", "/=", "%=", "//="]);
-                let rhs = if op == "|=" { self.expr(dd.min(1), lhs.t) } else { self.expr(dd.min(1), it) };
+                let rhs = if op == "|=" {
+                    self.expr(dd.min(1), lhs.t)
+                } else if op == "*=" {
+                    e(*self.r.pick(&["0", "1", "2", "3", "1.5", "-1", "{\"z\": 1}", "null"]), P_TERM, Ty::Any)
+                } else {
+                    self.expr(dd.min(1), it)
+                };
                 // always parenthesised: succinctly's parser ranks `//` above the assignment operators,
                 // jq below (recorded as a C24 finding); the evaluators are what C23 compares
                 e(format!("({} {op} {})", wrap(&lhs, P_OR), wrap(&rhs, P_OR)), P_TERM, it)
@@ -1021,13 +1047,29 @@ pub fn gen_program(r: &mut Rng, depth: u32, root: Ty, wild: bool) -> String {
     g.expr(depth, root).s
 }
 
+/// User-defined functions are expanded by substitution in succinctly, which re-reads the input
+/// number from its printed form (a double ≥ 2^53 that prints as an integer continues as an exact
+/// integer – recorded C24 finding); programs with `def` therefore get inputs without such numbers.
+fn tame_big_numbers(input: &str) -> String {
+    let mut s = input.to_string();
+    for big in ["9223372036854775808", "-9223372036854775809", "18446744073709551616", "123456789012345678901234567890", "1e17", "1e19", "1e308", "-1e308", "1.7976931348623157e308", "9007199254740993", "9223372036854775807", "-9223372036854775808", "9007199254740992"] {
+        s = s.replace(big, "7");
+    }
+    s
+}
+
 pub fn gen(tier: Tier, r: &mut Rng, emit: &mut dyn FnMut(String)) {
     let n = if tier == Tier::Quick { 12_000 } else { 400_000 };
+    let trace = std::env::var("SV_TRACE").is_ok();
     for i in 0..n {
         let depth = 1 + (i % 4) as u32; // depth 1..4
         let (input, root) = if r.chance(4, 5) { (gen_root(r), Ty::Root) } else { (gen_json(r, 3), Ty::Any) };
         let wild = r.chance(1, 4);
         let prog = gen_program(r, depth, root, wild);
+        if trace {
+            eprintln!("C23 ev {} {}", hex_bytes(prog.as_bytes()), hex_bytes(input.as_bytes()));
+        }
+        let input = if prog.contains("def ") { tame_big_numbers(&input) } else { input };
         emit(format!("C23 ev {} {}", hex_bytes(prog.as_bytes()), hex_bytes(input.as_bytes())));
         if i % 8 == 0 {
             // the same program on a second, untyped input (type-error paths)
